@@ -84,6 +84,8 @@ def make_grammars(tier, seed):
         gs.append(GR.merge_family(rng))
     for _ in range(n // 4):
         gs.append(GR.late_lookahead_family(rng))
+    for _ in range(n // 5):
+        gs.append(GR.first_chain_family(rng))
     return gs, rng
 
 
